@@ -116,26 +116,24 @@ func s3Legacy(reqURL *url.URL, parsedBase *url.URL, result S3ListBucketResult) [
 func s3V2(reqURL *url.URL, parsedBase *url.URL, result S3ListBucketResult) []string {
 	var outlinks []string
 
-	// If we have common prefixes => "subfolders"
-	if len(result.CommonPrefixes) > 0 {
-		for _, prefix := range result.CommonPrefixes {
-			// Create a URL for each common prefix (subfolder)
-			for _, p := range prefix.Prefix {
-				nextURL := *reqURL
-				q := nextURL.Query()
-				q.Set("prefix", p)
-				nextURL.RawQuery = q.Encode()
-				outlinks = append(outlinks, nextURL.String())
-			}
+	// Common prefixes => "subfolders"
+	for _, prefix := range result.CommonPrefixes {
+		// Create a URL for each common prefix (subfolder)
+		for _, p := range prefix.Prefix {
+			nextURL := *reqURL
+			q := nextURL.Query()
+			q.Set("prefix", p)
+			nextURL.RawQuery = q.Encode()
+			outlinks = append(outlinks, nextURL.String())
 		}
-	} else {
-		// Otherwise, we have actual objects in <Contents>
-		for _, obj := range result.Contents {
-			if obj.Size > 0 {
-				fileURL := *parsedBase
-				fileURL.Path += "/" + obj.Key
-				outlinks = append(outlinks, fileURL.String())
-			}
+	}
+
+	// Actual objects in <Contents>: a page can hold files next to subfolders
+	for _, obj := range result.Contents {
+		if obj.Size > 0 {
+			fileURL := *parsedBase
+			fileURL.Path += "/" + obj.Key
+			outlinks = append(outlinks, fileURL.String())
 		}
 	}
 
